@@ -333,7 +333,7 @@ theorem monitor_waits_le_sets {now spur : Nat} {s : Monitor.St} (h : Monitor.Rea
     returns true. -/
 theorem monitor_set_after_take_releases_a_waiter {now spur : Nat} {s : Monitor.St} (h : Monitor.Reach now spur s)
     (hf : s.flag = true) (u : Tid) (dl : Option Deadline) (hu : s.pc u = .wBlocked dl true) :
-    (∃ v, s.pc v = .setUnlock ∨ s.pc v = .setSignal ∨ ∃ d, s.pc v = .wRelock d false) ∧
+    (∃ v, (s.pc v = .setUnlock ∧ s.sigFirst = false) ∨ s.pc v = .setSignal ∨ ∃ d, s.pc v = .wRelock d false) ∧
     (∀ v, s.pc v = .setSignal → ∃ w s', Monitor.step s v (.run 0) = some s' ∧ Monitor.isBlocked (s.pc w) = true ∧
         ∃ d, s'.pc w = .wRelock d false) ∧
     (∀ v d, s.pc v = .wRelock d false → s.m = none →
@@ -343,8 +343,9 @@ theorem monitor_set_after_take_releases_a_waiter {now spur : Nat} {s : Monitor.S
   · obtain ⟨v, hv⟩ := Monitor.noLost_reach h hf u dl hu
     refine ⟨v, ?_⟩
     cases hp : s.pc v <;> simp [hp, Monitor.pendingWake] at hv ⊢
-    rename_i d b
-    cases b <;> simp at hv ⊢
+    · rename_i d b
+      cases b <;> simp at hv ⊢
+    · exact hv
   · intro v hv
     have hmem : u ∈ s.waiters := (hi.wf u).2 (by simp [hu, Monitor.isBlocked])
     cases hw : s.waiters with
@@ -358,7 +359,7 @@ theorem monitor_set_after_take_releases_a_waiter {now spur : Nat} {s : Monitor.S
         simp [Monitor.step, hv, hw] at hs; subst hs
         refine ⟨w, _, rfl, hwb, ?_⟩
         cases hp : s.pc w <;> simp [hp, Monitor.isBlocked] at hwb
-        simp [Monitor.done, upd, hwv, Monitor.wake]
+        cases hsf : s.sigFirst <;> simp [Monitor.afterSignal, hsf, Monitor.done, Monitor.goto, upd, hwv, Monitor.wake]
   · intro v d hv hm
     cases hs : Monitor.step s v (.run 0) with
     | none => simp [Monitor.step, hv, hm, hf] at hs
@@ -367,8 +368,15 @@ theorem monitor_set_after_take_releases_a_waiter {now spur : Nat} {s : Monitor.S
       exact ⟨_, rfl, by simp [Monitor.done], by simp [Monitor.done], by simp [Monitor.done]⟩
 
 example : ∃ s, Monitor.Reach 0 0 s ∧ s.flag = true ∧ s.pc 1 = .wBlocked none true ∧ s.pc 2 = .setUnlock := by
-  refine ⟨_, Monitor.reach_runActs [(1, .call .lock), (1, .run 0), (1, .call .wait), (1, .run 0), (2, .call .set), (2, .run 0)] .init rfl,
+  refine ⟨_, Monitor.reach_runActs [(1, .call .lock), (1, .run 0), (1, .call .wait), (1, .run 0), (2, .call .set), (2, .run 0)] (.init false) rfl,
     ?_, ?_, ?_⟩ <;> rfl
+
+/-- the same in the signal-first order of `set()` (every Monitor theorem quantifies over both orders: `Reach.init sigFirst`):
+    the setter signals while it still holds the monitor's mutex, then unlocks -/
+example : ∃ s s', Monitor.Reach 0 0 s ∧ s.sigFirst = true ∧ s.flag = true ∧ s.pc 1 = .wBlocked none true ∧ s.pc 2 = .setSignal ∧
+    s.m = some 2 ∧ Monitor.step s 2 (.run 0) = some s' ∧ s'.pc 1 = .wRelock none false ∧ s'.pc 2 = .setUnlock ∧ s'.m = some 2 := by
+  refine ⟨_, _, Monitor.reach_runActs [(1, .call .lock), (1, .run 0), (1, .call .wait), (1, .run 0), (2, .call .set), (2, .run 0)]
+    (.init true) rfl, ?_, ?_, ?_, ?_, ?_, rfl, ?_, ?_, ?_⟩ <;> rfl
 
 /-- A set() is not lost and is consumed by exactly one waiter.  For EVERY step of the system (any state, any thread, any
     action): either no wait succeeds and a pending flag stays pending — in particular a set() issued before anybody waits
@@ -390,7 +398,7 @@ theorem monitor_set_consumed_by_exactly_one_true_return (s s' : Monitor.St) (t :
     simp only [Monitor.step] at hs
     cases hpc : s.pc t <;> simp only [hpc] at hs
     all_goals
-      try simp only [Monitor.goto, Monitor.done] at hs
+      try simp only [Monitor.afterSignal, Monitor.goto, Monitor.done] at hs
       (repeat' split at hs) <;> simp at hs <;> (try subst hs) <;> grind [upd]
 
 /-- `wait(timeout)` returning false ⇒ the deadline has passed and this call did not consume the flag: in every reachable
@@ -434,7 +442,7 @@ theorem monitor_false_return_after_deadline_keeps_flag {now spur : Nat} {s : Mon
 
 example : ∃ s, Monitor.Reach 999999999 0 s ∧ s.flag = true ∧ (∃ d, s.pc 1 = .wRelock (some d) true) ∧ s.m = none := by
   refine ⟨_, Monitor.reach_runActs [(1, .call .lock), (1, .run 0), (1, .call (.twait 1)), (1, .run 0), (1, .tick 1000000),
-    (1, .run 1), (2, .call .set), (2, .run 0), (2, .run 0), (2, .run 0)] .init rfl, rfl, ⟨_, rfl⟩, rfl⟩
+    (1, .run 1), (2, .call .set), (2, .run 0), (2, .run 0), (2, .run 0)] (.init false) rfl, rfl, ⟨_, rfl⟩, rfl⟩
 
 /-- WHAT-IF (not the assumed semantics): if the POSIX layer let a timed-out waiter consume a concurrent signal,
     `Monitor::wait(timeout)` — which returns false on ETIMEDOUT without looking at the flag — would lose the wake-up:
@@ -499,7 +507,7 @@ example : ∃ s e, Sem.Reach 0 999999999 0 s ∧ e ∈ s.flog ∧ e.d.ms = 1500 
 
 example : ∃ s e, Monitor.Reach 999999999 0 s ∧ e ∈ s.flog := by
   refine ⟨_, _, Monitor.reach_runActs [(1, .call .lock), (1, .run 0), (1, .call (.twait 1)), (1, .run 0), (1, .tick 1000000), (1, .run 1),
-    (1, .run 0)] .init rfl, List.mem_cons_self⟩
+    (1, .run 0)] (.init false) rfl, List.mem_cons_self⟩
 
 /-! ## Thread -/
 
@@ -825,7 +833,7 @@ example : Signal.Reach false 0 0 (Signal.demoRun.st 0) ∧ WeakFair Signal.demoR
 example : Monitor.Reach 0 0 (Monitor.demoRun.st 0) ∧ WeakFair Monitor.demoRun Monitor.prog ∧
     StrongFair Monitor.demoRun Monitor.lk ∧ (∀ k, ∃ j, k ≤ j ∧ (Monitor.demoRun.st j).m = none) ∧
     (Monitor.demoRun.st 6).flag = true ∧ (Monitor.demoRun.st 6).pc 1 = .wBlocked none true := by
-  refine ⟨.init, ?_, ?_, ?_, rfl, rfl⟩
+  refine ⟨.init false, ?_, ?_, ?_, rfl, rfl⟩
   · intro t n h
     have h2 := h (n + 11) (by omega)
     have e : Monitor.demoRun.st (n + 11) = Monitor.d11 := rfl
